@@ -146,7 +146,16 @@ structure Obs where
   contacts : List ContactObs
   deriving Repr
 
-/-- bound on the origin contacts a looping chain may cause before the error answer -/
+/- (C18-a — a redirect cycle of length ≥ 2, a self-redirect reached after one hop, an absolute
+   self-redirect with another scheme: followed for ever — and C18-c — the same through stored hops,
+   without any origin contact — were repaired by a per-request redirect counter in cachingFunc
+   (`maxRedirects`, 508 Loop detected).  No class predicate stands for them any more; the inputs
+   are covered by the full-strength theorems `Props.C18.terminates` / `Props.C18Cache.cached_terminates`
+   and by the regression streams kf.C18-a / kf.C18-c.) -/
+
+/-- bound on the origin contacts a looping chain may cause before the error answer ("after a
+    bounded number of hops"; the code's own bound, `Spec.maxRedirects + 1` contacts, lies within
+    it: `Props.C18.bound_within_oracle`) -/
 def maxLoopContacts : Nat := 12
 
 /-- the oracle: an acyclic chain ends with the sink's response at the client; a looping chain
@@ -184,7 +193,8 @@ def leafBodyTok : Leaf → String
   | _ => "x"
 
 /-- what the harness would record if the implementation did what the model does; a diverging
-    run is what the watchdog reports as `runaway` -/
+    run is what the watchdog reports as `runaway` (no run diverges once the fuel covers the
+    redirect counter: `Props.C18.terminates`) -/
 def obsOf : Outcome → Obs
   | .diverged => { runaway := true, status := 0, body := "", contacts := [] }
   | .done l hops => { runaway := false, status := leafStatus l, body := leafBodyTok l, contacts := hops.map obsOfContact }
